@@ -12,6 +12,10 @@ mod payload;
 mod slots;
 
 use simcore::parse_args;
+
+#[cfg(not(miri))]
+#[global_allocator]
+static ALLOC: simcore::faultalloc::FaultAlloc = simcore::faultalloc::FaultAlloc;
 use simcore::runner::{cmd_gen, cmd_replay, cmd_run, Sim};
 
 fn dispatch<S: Sim>(sim: &S, pos: &[String], kv: &std::collections::BTreeMap<String, String>) -> i32 {
@@ -30,6 +34,10 @@ fn main() {
     let args: Vec<String> = std::env::args().skip(1).collect();
     let (pos, kv) = parse_args(&args);
     std::panic::set_hook(Box::new(|_| {}));
+    if kv.contains_key("careful") {
+        // free-tracking allocator on for every trace: requires --threads 1
+        simcore::faultalloc::set_careful(true);
+    }
     let code = match pos.first().map(|s| s.as_str()) {
         Some("l1") => dispatch(&l1::L1, &pos, &kv),
         Some("l2") => dispatch(&l2::L2 { c12: false }, &pos, &kv),
